@@ -34,6 +34,9 @@ static void gate_cases(const Env &E, bool all_rows) {
             if (!have_kh) { kh = E.keyhash(); have_kh = true; }
             int bits[3] = {row & 1, (row >> 1) & 1, (row >> 2) & 1}; uint64_t sx = fnv(key.data(), key.size() - pat.size());
             for (int q = 0; q < g.arity; q++) fresh(E, x[q], bits[q], sx);
+            // for gates whose combination has unit coefficients, one mask coefficient of the internal combination is placed exactly on a rounding boundary of the
+            // modulus switch (phase of the input unchanged: a_j += d, b += d*s_j): whatever the tie rule is, evaluation must not consult the random generator
+            if (g.arity >= 2) { int ka = g.arity == 2 ? g.ka : 1, kb = g.arity == 2 ? g.kb : 1; if (ka == 1 || ka == -1) { int j = (row * 3 + (int)pat.size()) % E.n; uint32_t cur = (uint32_t)ka * (uint32_t)x[0]->a[j] + (uint32_t)kb * (uint32_t)x[1]->a[j]; uint32_t target = (cur & 0xFFE00000u) | 0x00100000u; uint32_t d = (uint32_t)ka * (target - cur); x[0]->a[j] += (Torus32)d; x[0]->b += (Torus32)(d * (uint32_t)E.s->key[j]); } }
             // a slot that shares an object with an earlier slot carries that object's content; plaintext bits follow
             int eff[3]; for (int q = 0; q < g.arity; q++) { eff[q] = q; for (int p = 0; p < q; p++) if (pat[p] == pat[q]) { eff[q] = eff[p]; break; } }
             // reference: all-distinct objects with the same contents
@@ -111,6 +114,11 @@ int main(int argc, char **argv) {
         S = ek::make(8, 1, 2, 10, 8, 2, 73); ps = new TFheGateBootstrappingParameterSet(8, 2, S->lp, S->gp); ck = new CK(ps, S->bk, S->bkFFT);
         E = {"tiny-n8", S->lp, ck, S->s, [=] { return hash_bk(S->bk, S->bkFFT); }, 8};
         gate_cases(E, true);
+    }
+    {   // an odd dimension: the tails of the vectorised loops run
+        ek::Set *S = ek::make(7, 1, 3, 7, 8, 2, 75); TFheGateBootstrappingParameterSet *ps = new TFheGateBootstrappingParameterSet(8, 2, S->lp, S->gp); CK *ck = new CK(ps, S->bk, S->bkFFT);
+        Env E = {"tiny-n7", S->lp, ck, S->s, [=] { return hash_bk(S->bk, S->bkFFT); }, 7};
+        gate_cases(E, false);
     }
     if (opt("default", quick() ? "128" : "both") != "none") for (int lam : {128, 80}) { if (lam == 80 && quick()) continue;
         uint32_t sd[2] = {(uint32_t)lam, 5}; tfhe_random_generator_setSeed(sd, 2);
